@@ -30,6 +30,18 @@ unreachable and the loop of the Rust terminates on every input, from every reach
   machines satisfying `TInv` (`C04_tok_finish_pause_witness`: pending reconsume of `>` in the tag
   name state); such a machine never arises at a suspension (`reconsume` is clear whenever a step
   asks for more input), but that is not part of `TInv`, so the theorem carries the hypothesis.
+* `C04_tok_end_total`: **`end()` completes for EVERY sink** (also one that answers Script /
+  EncodingIndicator to any tag) from every *quiet* machine, `Quiet m := TInv m ∧ m.reconsume = false ∧
+  SP m` (`SP`: what the look-ahead stash `temp_buf` holds in the two `eat` states contains neither `>`
+  nor `&` — it matched a prefix of a keyword). Quiet machines are exactly where the loop can stop:
+  `C04_tok_step_stops_quiet` (a step that asks for more input or pauses leaves no pending `reconsume`:
+  a read that found the queue empty had none, and the table pauses only in branches that do not set
+  it), `C04_tok_feed_stops_quiet`, `C04_tok_initial_quiet`. Reason: the tokenizer pauses only on
+  reading `>` (`transChar_pause`, `transSet_pause`, `stepBav_pause`) and starts a character reference
+  only on `&`; `end()` hands back `name_buf` (alphanumerics/`;`), `#`, `x`/`X` or a failed keyword
+  prefix, so its final `run` never delivers a tag token (`C04_tok_end_run_never_pauses`) and the sink
+  is not consulted. `C04_tok_session_end_total`: fresh tokenizer, any chunking, any sink ⇒ `end()` is
+  `.ok` with EOF last.
 -/
 namespace H5V.Props.C04
 open H5V.Model.HtmlTok
@@ -149,6 +161,98 @@ theorem C04_tok_finish_total (o : Opts) (pol : Pol) (hp : NoPause pol) (m : Mach
         | indicator => simp at h
         | panic e => simp at h
 
+/-- whenever `end()` completes, the last token it delivered is EOF -/
+theorem C04_tok_finish_eof_last (o : Opts) (pol : Pol) (m mf : Mach) (h : finish o pol m = .ok mf) :
+    ∃ l rest, mf.out = (Token.eof, l) :: rest := by
+  unfold finish at h
+  have tail : ∀ (m0 : Mach) (i0 : Str),
+      (match run o pol (fuelFor (m0.setAtEof true) i0) (m0.setAtEof true) i0 with
+        | .done m inp => if !inp.isEmpty then .error "assertion failed: input.is_empty()" else eofLoop o 8 m
+        | .script _ _ | .indicator _ _ =>
+          .error "assertion failed: matches!(self.run(&input), TokenizerResult::Done)"
+        | .panic e => .error e
+        | .outOfFuel => .error "run out of fuel") = Except.ok mf →
+      ∃ l rest, mf.out = (Token.eof, l) :: rest := by
+    intro m0 i0 h0
+    split at h0
+    · split at h0
+      · simp at h0
+      · exact C04_tok_eof_is_last o 8 _ mf h0
+    · simp at h0
+    · simp at h0
+    · simp at h0
+    · simp at h0
+  cases hcr : m.charRef with
+  | none =>
+    simp only [hcr] at h
+    exact tail m [] h
+  | some cr =>
+    simp only [hcr] at h
+    cases hce : crEof o m [] cr with
+    | error e => rw [hce] at h; simp at h
+    | ok v =>
+      obtain ⟨m1, i1, chars⟩ := v
+      rw [hce] at h
+      simp only at h
+      cases hpc : processCharRef (m1.setCharRef none) chars with
+      | mk m2 sig =>
+        rw [hpc] at h
+        cases sig with
+        | cont => exact tail m2 i1 h
+        | script => simp at h
+        | indicator => simp at h
+        | panic e => simp at h
+
+/-! ### `end()` for every sink, from the machines that can reach it -/
+
+/-- a tokenizer as created by `Tokenizer::new` is quiet -/
+theorem C04_tok_initial_quiet (st : State) (last : Option Str) (bom : Bool) :
+    Quiet { state := st, lastStartTag := last, discardBom := bom } :=
+  quiet_fresh _ rfl rfl rfl
+
+/-- **a step that stops the loop leaves a quiet machine**: in particular no pending `reconsume`,
+whether it asked for more input or paused for the sink -/
+theorem C04_tok_step_stops_quiet (o : Opts) (pol : Pol) (m : Mach) (inp : Str) (hi : TInv m) (m' : Mach) (inp' : Str)
+    (h : step o pol m inp = .suspend m' inp' ∨ step o pol m inp = .script m' inp' ∨
+      step o pol m inp = .indicator m' inp') : Quiet m' ∧ m'.reconsume = false := by
+  have hq : Quiet m' := by
+    rcases h with h | h | h <;>
+      exact step_stop_quiet o pol m inp hi m' inp' (by rw [h]; rfl) (by rw [h]; simp)
+  exact ⟨hq, hq.nrec⟩
+
+/-- **every way a `feed` can stop** (needs more input / Script / EncodingIndicator) **yields a quiet
+machine** -/
+theorem C04_tok_feed_stops_quiet (o : Opts) (pol : Pol) (m : Mach) (inp chunk : Str) (hq : Quiet m)
+    (m' : Mach) (inp' : Str) (h : (feed o pol m inp chunk).pair? = some (m', inp')) : Quiet m' :=
+  feed_stops_quiet o pol m inp chunk hq m' inp' h
+
+/-- from a quiet machine with nothing but plain text left, the loop never answers Script /
+EncodingIndicator — for any sink: no tag token is delivered -/
+theorem C04_tok_end_run_never_pauses (o : Opts) (pol : Pol) (fuel : Nat) (m : Mach) (inp : Str) (he : EndInv m inp) :
+    (∀ m' i', run o pol fuel m inp ≠ .script m' i') ∧ (∀ m' i', run o pol fuel m inp ≠ .indicator m' i') :=
+  run_end o pol fuel m inp he
+
+/-- **5c. `Tokenizer::end` is total for EVERY sink** from every machine in which the loop can have
+stopped: no panic, no hang, no failed assertion, EOF delivered last -/
+theorem C04_tok_end_total (o : Opts) (pol : Pol) (m : Mach) (hq : Quiet m) :
+    ∃ mf, finish o pol m = .ok mf ∧ ∃ l rest, mf.out = (Token.eof, l) :: rest := by
+  obtain ⟨mf, h⟩ := finish_end_total o pol m hq
+  exact ⟨mf, h, C04_tok_finish_eof_last o pol m mf h⟩
+
+/-- **fresh tokenizer, any chunks, any sink ⇒ `end()` completes with EOF last** -/
+theorem C04_tok_session_end_total (o : Opts) (pol : Pol) (st : State) (last : Option Str) (bom : Bool)
+    (cs : List Str) (mf : Mach)
+    (hs : Session o pol { state := st, lastStartTag := last, discardBom := bom } cs mf) :
+    ∃ me, finish o pol mf = .ok me ∧ ∃ l rest, me.out = (Token.eof, l) :: rest :=
+  C04_tok_end_total o pol mf (session_quiet o pol hs (C04_tok_initial_quiet st last bom))
+
+/-- the same through `feed` itself: if a `feed` on a quiet machine stops for more input, `end()` on
+the result completes, for any sink -/
+theorem C04_tok_feed_end_total (o : Opts) (pol : Pol) (m : Mach) (inp chunk : Str) (hq : Quiet m)
+    (m' : Mach) (inp' : Str) (h : feed o pol m inp chunk = .done m' inp') :
+    ∃ me, finish o pol m' = .ok me ∧ ∃ l rest, me.out = (Token.eof, l) :: rest :=
+  C04_tok_end_total o pol m' (feed_stops_quiet o pol m inp chunk hq m' inp' (by rw [h]; rfl))
+
 /-! ### non-vacuity -/
 
 /-- a sink that lets the tokenizer run -/
@@ -202,5 +306,28 @@ theorem C04_tok_finish_pause_witness :
     finish ⟨false⟩ polScript pausedAtEnd =
       .error "assertion failed: matches!(self.run(&input), TokenizerResult::Done)" :=
   ⟨pausedAtEnd_inv, rfl⟩
+
+/-- the witness machine is not quiet (its `reconsume` is pending): no contradiction with
+`C04_tok_end_total` -/
+example : ¬ Quiet pausedAtEnd := fun h => by have := h.nrec; simp [pausedAtEnd] at this
+
+/-- non-vacuity of `C04_tok_end_total` with a sink that answers Script to every tag: after `<!-` the
+tokenizer is suspended with `-` stashed; `end()` puts it back, reads it as a bogus comment and
+completes -/
+example : ∃ m', feed ⟨false⟩ polScript {} [] ['<', '!', '-'] = .done m' [] ∧ m'.tempBuf = ['-'] ∧
+    ∃ mf, finish ⟨false⟩ polScript m' = .ok mf :=
+  ⟨_, rfl, rfl,
+    let ⟨mf, h, _⟩ := C04_tok_feed_end_total ⟨false⟩ polScript {} [] ['<', '!', '-']
+      (C04_tok_initial_quiet .data none true) _ [] rfl
+    ⟨mf, h⟩⟩
+
+/-- … and in the middle of a character reference: `&am` -/
+example : ∃ m', feed ⟨false⟩ polScript {} [] ['&', 'a', 'm'] = .done m' [] ∧
+    (∃ cr, m'.charRef = some cr ∧ cr.nameBuf = some ['a', 'm']) ∧
+    ∃ mf, finish ⟨false⟩ polScript m' = .ok mf :=
+  ⟨_, rfl, ⟨_, rfl, rfl⟩,
+    let ⟨mf, h, _⟩ := C04_tok_feed_end_total ⟨false⟩ polScript {} [] ['&', 'a', 'm']
+      (C04_tok_initial_quiet .data none true) _ [] rfl
+    ⟨mf, h⟩⟩
 
 end H5V.Props.C04
